@@ -133,8 +133,8 @@ PROPS = {
     "C18": {
         "engines": [{"name": "rapid"}],
         "lean_files": ["C18", "C18Draws"],
-        "text": "Lean 4 model of rapidproto at the draw level (Pulsar.Rapidproto.setFields/generate: the generator as a function of the sequence of values rapid hands out) with theorems for ALL schemas, option sets and draw sequences: C18_draws_total (never out of fuel, Truncate index always in range, draws consumed left to right: termination), C18_draws_wellformed (draws in the range of their rapid generators => msgOK, valid UTF-8, declared enum numbers), C18_draws_marshal_roundtrip (composition with C01: the message marshals and round-trips), C18_draws_depth_bounded (nesting <= depthLimit+2, attained), C18_draws_noEmptyLists / C18_draws_disallowNil (what the options guarantee within the nesting limit; C18_remark_* counterexamples at the limit), plus C18_gen_* over constants regenerated from rapidproto.go (Timestamp/Duration ranges valid, FieldMask store). Tie: rapid's own draw log (-rapid.log) is captured for every generated example and replayed on the model through the compiled driver (rgen/rwkt lines: same message required); Any type URLs, field mappers and well-known types embedded in other messages are decided by a direct oracle on generated examples (types x option sets x seeds).",
-        "note": "partial: rapid itself is a black box (assumed: String() yields valid UTF-8, ranges are respected); option sets with AnyTypeURLs / FieldMaps and exponential recursive types (probed under a call-stack depth guard) have no model lines",
+        "text": "Lean 4 model of rapidproto at the draw level (Pulsar.Rapidproto.setFields/generate: the generator as a function of the sequence of values rapid hands out) with theorems for ALL schemas, option sets and draw sequences: C18_draws_total (never out of fuel, Truncate index always in range, draws consumed left to right: termination), C18_draws_wellformed (draws in the range of their rapid generators => msgOK, valid UTF-8, declared enum numbers), C18_draws_marshal_roundtrip (composition with C01: the message marshals and round-trips), C18_draws_depth_bounded (nesting <= depthLimit+2, attained), C18_draws_noEmptyLists / C18_draws_disallowNil / C18_draws_mapper_honoured / C18_draws_mapper_consumes_no_draw (what the three options guarantee within the nesting limit; C18_remark_* counterexamples at the limit), plus C18_gen_* over constants regenerated from rapidproto.go (Timestamp/Duration ranges valid, FieldMask store). Tie: rapid's own draw log (-rapid.log) is captured for every generated example and replayed on the model through the compiled driver (rgen/rwkt lines: same message required); Any type URLs (incl. accepts_interface hints) and well-known types embedded in other messages are decided by a direct oracle on generated examples (types x option sets x seeds).",
+        "note": "partial: rapid itself is a black box (assumed: String() yields valid UTF-8, ranges are respected); option sets with AnyTypeURLs and exponential recursive types (probed under a call-stack depth guard) have no model lines",
         "design": "DESIGN.md §3 C18",
         "level": "proof",
     },
@@ -172,7 +172,8 @@ REQUIRED = {
     "C18": ["C18_gen_timestamp_valid", "C18_gen_duration_valid", "C18_gen_enum_declared", "C18_gen_fieldmask_paths",
             "C18_gen_depth_bounded", "C18_gen_branch_terminates",
             "C18_draws_total", "C18_draws_total_generate", "C18_draws_wellformed", "C18_draws_marshal_roundtrip",
-            "C18_draws_depth_bounded", "C18_draws_noEmptyLists", "C18_draws_disallowNil"],
+            "C18_draws_depth_bounded", "C18_draws_noEmptyLists", "C18_draws_disallowNil",
+            "C18_draws_mapper_honoured", "C18_draws_mapper_consumes_no_draw"],
 }
 
 NOT_YET = {
